@@ -65,7 +65,9 @@ var mainImports = map[string]string{
 // shimPkgs are directories under -shim copied to <repo>/verifshim/<name>.
 var shimPkgs = []string{"vsync", "vatomic", "vnet", "vrand", "vcrand", "vyield", "vflag", "vhttp", "vsignal", "vtime"}
 
-// timeDirs: every non-test source file under these directories that imports "time" gets it from
+// timeDirs: every non-test source file under these directories that imports "sync" gets it from
+// the vsync shim (every lock can be hooked, every sync.Pool is tracked: double puts, use after put)
+// and every one that imports "time" gets it from
 // the vtime shim (same clock, plus a count of armed timers: the explorer offers "let time pass" as
 // an event exactly when something is waiting for it). The list is built from the current sources,
 // so a file that starts using timers is covered without anything being registered here.
@@ -86,14 +88,17 @@ func addTimeRewrites(repo string) {
 				return nil // the compiler will say so
 			}
 			for _, im := range f.Imports {
-				if p, _ := strconv.Unquote(im.Path.Value); p == "time" {
-					rel, _ := filepath.Rel(repo, path)
-					if i, ok := have[rel]; ok {
-						rewrites[i].imports["time"] = modPath + "/verifshim/vtime"
-					} else {
-						have[rel] = len(rewrites)
-						rewrites = append(rewrites, rewrite{rel, map[string]string{"time": modPath + "/verifshim/vtime"}})
-					}
+				p, _ := strconv.Unquote(im.Path.Value)
+				to := map[string]string{"time": modPath + "/verifshim/vtime", "sync": modPath + "/verifshim/vsync"}[p]
+				if to == "" {
+					continue
+				}
+				rel, _ := filepath.Rel(repo, path)
+				if i, ok := have[rel]; ok {
+					rewrites[i].imports[p] = to
+				} else {
+					have[rel] = len(rewrites)
+					rewrites = append(rewrites, rewrite{rel, map[string]string{p: to}})
 				}
 			}
 			return nil
